@@ -9,8 +9,8 @@ import (
 	"polyverif/internal/run"
 )
 
-// genMatrix draws a 4x4 matrix; affine = bottom row is exactly (0,0,0,1).
-func genMatrix(r *rand.Rand) (m m4, kind string, affine bool) {
+// genBasicMatrix draws an unstructured (or TRS / well-conditioned) 4x4 matrix; affine = bottom row is exactly (0,0,0,1).
+func genBasicMatrix(r *rand.Rand) (m m4, kind string, affine bool) {
 	s := pow10(r.Intn(7) - 3)
 	switch r.Intn(9) {
 	case 0, 1: // dense
@@ -285,6 +285,10 @@ func matrixCase(c *run.Ctx) run.Result {
 				dense++
 			}
 		}
+	}
+	res.Count("matrix_struct_"+ka, 1)
+	if invChecked {
+		res.Count("inverse_checked_"+ka, 1)
 	}
 	res.Nontrivial = dense >= 3 && invChecked
 	res.Sig = fmt.Sprintf("%s,%s/e%d,e%d/inv%v", ka, kb, decade(mA), decade(mB), invChecked)
